@@ -93,7 +93,7 @@ Proof.
     eapply osend_nr; [|exact H]. intros Y r2 ev2 E. eapply send_tx_list_nr; [exact E|lia|apply NR_refl].
   - cbv zeta in H. destruct (valid_dev r (bcast_dev dst idev)) eqn:V; [|injection H as <- <-; apply NR_refl]. apply valid_dev_range in V.
     eapply osend_nr; [|exact H]. intros Y r2 ev2 E. eapply send_rx_list_nr; [exact E|lia|apply NR_refl].
-  - destruct (negb _); [injection H as <- <-; apply NR_refl|]. eapply send_heartbeat_api_nr; [exact H|lia].
+  - destruct (negb _ || negb _); [injection H as <- <-; apply NR_refl|]. eapply send_heartbeat_api_nr; [exact H|lia].
   - destruct (is_active_node (rn r)); cbn [andb] in H; [|injection H as <- <-; apply NR_refl].
     destruct (valid_dev r idev) eqn:V; [|injection H as <- <-; apply NR_refl]. apply valid_dev_range in V. cbv zeta in H.
     eapply osend_nr; [|exact H]. intros Y r2 ev2 E. cbv beta zeta in E.
